@@ -5,15 +5,15 @@ package snaps
 // A second non-test source file for H_C11_nontest: the wrappers that stand for an exported
 // Match* function and its internal twin live here, their caller lives in h_c11.go.
 
-func h11bExported(c *Config, name string, standalone bool) (string, string) {
-	return h11bInner(c, name, standalone)
+func vxH11bExported(c *Config, name string, standalone bool) (string, string) {
+	return vxH11bInner(c, name, standalone)
 }
 
-func h11bInner(c *Config, name string, standalone bool) (string, string) {
+func vxH11bInner(c *Config, name string, standalone bool) (string, string) {
 	return snapshotPath(c, name, standalone)
 }
 
 // an assertion helper of the suite: the frame that sits next to go-snaps
-func h11bHelper(c *Config, name string, standalone bool) (string, string) {
-	return h11bExported(c, name, standalone)
+func vxH11bHelper(c *Config, name string, standalone bool) (string, string) {
+	return vxH11bExported(c, name, standalone)
 }
